@@ -27,6 +27,8 @@
 EXTENDS CoreExpr, TLC
 
 CONSTANT DevAstralFiveHex
+\* the function table (names, aliases, arities) the expression reader of ExprSyntax.tla works with: a set of [name, canon, min, max] (parse_selection)
+CONSTANT FuncTable
 P == INSTANCE JsonPrinter
 Ident(x) == x
 R == INSTANCE Rfc8259 WITH DoubleOf <- Ident
@@ -199,6 +201,8 @@ Eval(e, c) ==
                        IF e.path = <<>> THEN base ELSE IF HasUObj(base) /\ r # Nothing /\ r.t \in {"obj", "arr"} THEN Unspec ELSE r
     [] e.op = "var" -> Lookup(c.vars, e.name).v
     [] e.op = "sel" -> Lookup(c.results, e.name).v
+    \* the position of the record in the input is not part of this context (Run.tla has it): no meaning here
+    [] e.op = "ictx" -> Unspec
     [] e.op = "mac" -> IF \E i \in 1..Len(c.macros) : c.macros[i].name = e.name THEN Eval(Lookup(c.macros, e.name).e, c) ELSE Nothing
     [] e.op = "call" -> EvalCall(e.f, e.args, c)
 
@@ -268,6 +272,7 @@ B64Groups(s, i, acc) ==
 B64Decode(s) == IF Len(s) % 4 # 0 THEN [ok |-> FALSE, bytes |-> <<>>] ELSE B64Groups(s, 1, <<>>)
 RX == INSTANCE Regex
 TM == INSTANCE Time
+SX == INSTANCE ExprSyntax
 \* a number of seconds since the epoch as (day number, second of the day): digits divided by 86400 the long way (the seconds of the year 9999 are
 \* not a 32-bit number).  A fraction is only followed for positive dyadic numbers (the whole second is then the floor); the text is the whole
 \* number of seconds as %s prints it.
@@ -400,7 +405,13 @@ EvalCall(f, args, c) ==
     [] f = "base63_decode" -> IF IsU(a1) THEN Unspec ELSE IF a1.t # "str" THEN Nothing
                               ELSE LET b == B64Decode(a1.c) IN
                                    IF ~b.ok THEN Nothing ELSE LET u == Utf8Dec(b.bytes) IN IF u.ok THEN Str(u.c) ELSE Nothing
-    [] f \in {"env", "parse_selection"} -> IF IsU(a1) THEN Unspec ELSE IF a1.t = "str" THEN Unspec ELSE Nothing
+    [] f = "env" -> IF IsU(a1) THEN Unspec ELSE IF a1.t = "str" THEN Unspec ELSE Nothing
+    \* "Parse a string into a new selection": the text is read the way --select reads its value (ExprSyntax.tla: an expression, then nothing or
+    \* `=name`) and the selection is evaluated where the call stands - same input, parents and bindings.  A text the specification's reader
+    \* refuses (it reads literals strictly) has no meaning here.
+    [] f = "parse_selection" ->
+         IF IsU(a1) THEN Unspec ELSE IF a1.t # "str" THEN Nothing
+         ELSE IF SX!SelectOk(a1.c, FuncTable) THEN Eval(SX!Parse(a1.c, FuncTable).e, c) ELSE Unspec
     \* ---- lists
     [] f = "filter" -> IF IsU(a1) THEN Unspec ELSE IF a1.t # "arr" THEN Nothing
                        ELSE LET rs == MapOver(args[2], c, a1.a, 1) IN
